@@ -12,7 +12,8 @@ RULE = ("every directed graph on n<=3 task names given as *ordered* dep lists (s
         "spread over 1-2 COND files, through TaskIndex.load_transitive_closure; all n<=2 graphs with variants and all n=3 base graphs "
         "end-to-end through `cond run T` and `cond run --check T` under the virtual kernel (spawn count observed); whole-project "
         "validation (load_all_tasks_in_cond_file + validate_all_loaded_tasks, explorer get_task_graph) for all graphs in every "
-        "definition order; oracle = reachability / cycle / dangling / duplicate reference. non-trivial = graph with >=1 edge; "
+        "definition order; graphs produced by the run_experiment_group macro (1-3 instances x chained or not x 9 group dep lists incl. "
+        "dangling, self-referencing and duplicated ones x the dep list object reused by a later task), every target; oracle = reachability / cycle / dangling / duplicate reference. non-trivial = graph with >=1 edge; "
         "distinct = distinct (graph, target, layout)")
 ASSUMPTIONS = [
     "when several defect classes are reachable from T any one of the applicable errors is accepted",
@@ -70,12 +71,22 @@ def ref_verdict(deps, defined, target):
 
 
 def render(deps, order, pkgs):
-    """deps {name: [names]}, order: definition order of names, pkgs {name: pkg}; undefined names live in root."""
+    """deps {name: [names]}, order: definition order of names, pkgs {name: pkg}; undefined names live in root.
+    A dependency that appears a second time in one list is spelled differently (fully qualified instead of relative): the same task
+    under two spellings is still a duplicate."""
     files = {}
     for nm in order:
         dl = []
+        seen_here = set()
         for d in deps[nm]:
             dp = pkgs.get(d, "")
+            rel_ok = dp == pkgs[nm]
+            if d in seen_here and rel_ok:
+                dl.append("//%s:%s" % (dp, d))
+            else:
+                dl.append(":" + d if rel_ok else "//%s:%s" % (dp, d))
+            seen_here.add(d)
+            continue
             dl.append(":" + d if dp == pkgs[nm] else "//%s:%s" % (dp, d))
         text = 'run_command(name="%s", run="true", deps=[%s])\n' % (nm, ", ".join('"%s"' % x for x in dl))
         f = (pkgs[nm] + "/" if pkgs[nm] else "") + "COND"
@@ -143,6 +154,15 @@ def items(tier):
             out.append({"kind": "project", "n": n, "graphs": batch[i:i + 300]})
     batch = [(d, t) for d, t in graph_variants(2, tier) if t != "dup"] + [(d, t) for d, t in graph_variants(1, tier) if t != "dup"]
     out.append({"kind": "routes", "graphs": batch})
+    # graphs whose tasks come out of the run_experiment_group macro (instances x-1..x-k, optionally chained, shared group deps)
+    macro = []
+    for k in (1, 2, 3):
+        for chain in (False, True):
+            for gdeps in ([], ["a"], ["a", "b"], ["b", "a"], ["zz"], ["g"], ["x-1"], ["x-%d" % k], ["a", "a"]):
+                for reuse in (False, True):
+                    macro.append({"k": k, "chain": chain, "gdeps": gdeps, "reuse": reuse})
+    for i in range(0, len(macro), 12):
+        out.append({"kind": "macro", "cases": macro[i:i + 12]})
     if tier == "thorough":
         names4 = NAMES[:4]
         masks = list(range(1 << 16))
@@ -257,6 +277,48 @@ def run_item(item, tier):
                             if not r.err_text.startswith("ERROR:") or not hit:
                                 viol("e2e:wrong-diagnostic", "reference %s but stderr is %r" % (sorted(want), r.err_text[:300]), art)
         res["sample"] = {"deps": item["graphs"][0][0], "target": "a", "flags": ["--check"]}
+    elif kind == "macro":
+        for c in item["cases"]:
+            k, chain, gdeps, reuse = c["k"], c["chain"], c["gdeps"], c["reuse"]
+            inst = ["x-%d" % (i + 1) for i in range(k)]
+            # the documented expansion
+            deps = {"a": [], "b": ["a"], "g": list(inst)}
+            for i, nm in enumerate(inst):
+                deps[nm] = list(gdeps) + ([inst[i - 1]] if chain and i else [])
+            if reuse:
+                deps["after"] = list(gdeps)
+            defined = set(deps)
+            dl = "[%s]" % ", ".join('":%s"' % d for d in gdeps)
+            text = 'run_command(name="a", run="true")\nrun_command(name="b", run="true", deps=[":a"])\n'
+            text += "D = %s\n" % dl
+            text += ('run_experiment_group(name="g", run="true", experiments=[%s], chain_experiments=%r, deps=%s)\n'
+                     % (", ".join('ExperimentInstance(name="%s", options={"i": %d})' % (nm, i) for i, nm in enumerate(inst)), chain, "D" if reuse else dl))
+            if reuse:
+                text += 'run_command(name="after", run="true", deps=D)\n'
+            files = {"COND": text}
+            art = {"kind": "macro", "case": c}
+            for t in sorted(defined):
+                want = ref_verdict(deps, defined, t)
+                res["evals"] += 1
+                root = driver.fresh_project(files, name="c14m")
+                got, idx = impl_closure(root, "//:" + t)
+                res["sigs"].add(explore.sig(["macro", c, t]))
+                if got not in want:
+                    viol("macro:closure:%s-instead-of-%s" % (got, "+".join(sorted(want))),
+                         "load_transitive_closure(%s) on the expansion of %r -> %s, reference (%r) -> %s" % (t, c, got, deps, sorted(want)), art)
+                    continue
+                res["evals"] += 1
+                vk = vkmod.VK(project_root=root)
+                r = driver.run_cli(["run", "//:" + t, "--check"], root, vk=vk, git=fakegit.NO_GIT, clock=driver.Clock())
+                spawns = [e for e in vk.log if e[0] == "spawn"]
+                if r.exc is not None or "Traceback" in r.err_text:
+                    viol("macro:internal-error", "cond run --check %s on the expansion of %r: %r %s" % (t, c, r.exc, r.err_text[-300:]), art)
+                elif (want == {"ok"}) != (r.exit == 0):
+                    viol("macro:e2e:%s" % ("valid-graph-rejected" if want == {"ok"} else "invalid-graph-accepted"),
+                         "cond run --check %s on the expansion of %r exits %r (%s), reference %s" % (t, c, r.exit, r.err_text[:200], sorted(want)), art)
+                elif spawns:
+                    viol("macro:check-executed", "--check spawned %d tasks" % len(spawns), art)
+        res["sample"] = {"case": item["cases"][0], "check": "graphs produced by the run_experiment_group macro"}
     elif kind == "project":
         from conductor.parsing.task_index import TaskIndex
         from conductor.errors import CyclicDependency, TaskNotFound
@@ -362,6 +424,9 @@ def _mentions(kind, txt):
 
 def replay(artefact):
     k = artefact["kind"]
+    if k == "macro":
+        r = run_item({"kind": "macro", "cases": [artefact["case"]]}, "quick")
+        return [(v["key"], v["what"]) for v in r["violations"]]
     deps = artefact["deps"]
     if k == "closure":
         item = {"kind": "closure", "graphs": [(deps, "replay")]}
